@@ -1413,6 +1413,20 @@ class Timeline:
         return None
 
 
+def _queued_during_exit_set(tl, log, sid, act, sp):
+    """was the expiry at log position `sp` queued while the transition that ENDED activation `act` of `sid` was already
+    running its exit set (behind the first `ex:` record of that transition, before `sid`'s own)? The sync engine cancels
+    the tasks of the whole exit set before the first exit action runs, so there this cannot happen"""
+    if sp is None or act is None:
+        return False
+    xp = tl.acts[sid][act]["xp"]
+    if xp is None or not sp < xp:
+        return False
+    p0 = next((p for p in range(xp, -1, -1) if log[p][1].startswith(("#t:", "#recv:"))), -1)
+    first_ex = next((p for p in range(p0 + 1, xp + 1) if log[p][1].startswith("ex:")), xp)
+    return first_ex < sp
+
+
 def _dead(case, log, info=None):
     """(position, time) from which the interpreter is known not to be running any more: an unhandled service
     failure (`_fail`), `stop()`, or a `send` that reports another status. (None, None): it ran to the end.
@@ -1489,7 +1503,8 @@ def monitor_c08(case, out):
                 key, slot = mk[3:].split("@")[0].rsplit(":", 1)
                 owner = tl.key2sid.get(key)
                 base = {"event": typ, "owner": owner, "t": t_recv, "queued_in_activation": act_send, "received_in_activation": act_recv,
-                        "queued_at": log[sp][0] if sp is not None else None, "slow_actions": slow}
+                        "queued_at": log[sp][0] if sp is not None else None, "slow_actions": slow,
+                        "queued_during_exit_set": _queued_during_exit_set(tl, log, sid, act_send, sp)}
                 if owner != sid:
                     probs.append({"kind": "after-wrong-owner", "detail": f"{mk} for event of {sid}", **base})
                     continue
@@ -1731,6 +1746,10 @@ def monitor_c09(case, out):
 # ------------------------------------------------------------------------------------------- known-finding classifiers
 def cls_stale_after(prob, case, flavor):
     """F6: an AfterEvent queued during one activation of its state is matched by a LATER activation"""
+    if flavor == "sync" and prob.get("queued_during_exit_set"):
+        # not F6: the sync engine cancels the timers of every state a transition exits BEFORE the first exit action runs;
+        # an expiry queued while the exit set was already running means that order was lost
+        return False
     if prob.get("kind") == "after-fired-early":
         return prob.get("queued_in_activation") != prob.get("received_in_activation") and not prob.get("orphan_timer")
     if prob.get("kind") == "after-fired-twice":
@@ -2287,6 +2306,28 @@ def deep_cases(tier, tasks, flavor):
                 cases.append({"id": f"deep-{kind}-{tname}-{flavor}-{len(cases)}", "machine": m, "guards": {},
                               "logic": {"delays": dict(DELAYS), "services": copy.deepcopy(INST_SERVICES)},
                               "agenda": agenda + [[horizon - 300, "obs"]], "horizon": horizon, "profile": "deepfix"})
+            # the composite state's own deadline falls INSIDE a slow exit action of one of its descendants, in a transition
+            # that leaves (and mostly re-enters) the composite state: every leaf below `work` exits slowly (100 ms); `work`
+            # is entered at 50 (timer / service due from 150 on), the second input arrives at 80 / 100 / 140
+            ms = copy.deepcopy(_deep_machine(kind, tk))
+
+            def slow_leaves(n):
+                kids = [c for c in (n.get("states") or {}).values() if c.get("type") != "history"]
+                if not kids:
+                    n["exit"] = ["async:sleep:100"] + n["exit"]
+                for c in kids:
+                    slow_leaves(c)
+            slow_leaves(ms["states"]["work"])
+            if flavor == "sync":
+                ms = _syncify(ms)
+            for t2 in (80, 100, 140):
+                for i in DEEP_INSIDE + ["CLOSE"]:
+                    for tail in ((), ("OPEN",)) if i == "CLOSE" else ((),):
+                        agenda = [[50, "send", "OPEN"], [t2, "send", i]] + [[400, "send", e] for e in tail]
+                        horizon = 400 + 1000 + 37
+                        cases.append({"id": f"deep-slowexit-{kind}-{tname}-{flavor}-{len(cases)}", "machine": ms, "guards": {},
+                                      "logic": {"delays": dict(DELAYS), "services": copy.deepcopy(INST_SERVICES)},
+                                      "agenda": agenda + [[horizon - 300, "obs"]], "horizon": horizon, "profile": "deepfix"})
     return cases
 
 
